@@ -558,6 +558,30 @@ def check_C11(c):
             out.append(V("C11", "running-job-relaunched", {},
                          "pid %d launched x=%d at seq %d while process %d of the same job (complete pid file at submit) was still running"
                          % (pid, x, ev[0], still[0][0])))
+    # adoption, continued: a scheduler that found the job running with a complete pid file when
+    # the job was submitted does not start a process for it after that process has succeeded
+    # (adopted means: its end is the job's end)
+    ok_exit = {}     # job pid -> seq of its exit with status 0 after a completed body
+    body_ok = set()
+    for ev in c.events:
+        if ev[4] == "body-end" and ev[5]["outcome"] == "ok":
+            body_ok.add(ev[2])
+        elif ev[4] == "proc-exit" and ev[5].get("kind") == "job" and ev[5]["code"] == 0 and ev[2] in body_ok and ev[2] not in ok_exit:
+            ok_exit[ev[2]] = ev[0]
+    for ev in c.by["spawn"]:
+        pid, x = ev[2], ev[5]["x"]
+        calls = [sc for sc in c.by["submit-call"] if sc[2] == pid and sc[5]["x"] == x and sc[0] < ev[0]]
+        if not calls:
+            continue
+        sc = calls[-1]
+        if not (sc[5].get("pidfile") == "ok" and sc[5].get("pidfile_alive")):
+            continue
+        seen = [s for s in spans if s[1] == x and s[2] < sc[0] and (s[3] is None or s[3] > sc[0])]
+        ended_ok = [s for s in seen if s[0] in ok_exit and sc[0] < ok_exit[s[0]] < ev[0]]
+        if ended_ok:
+            out.append(V("C11", "running-job-not-adopted", {},
+                         "pid %d found x=%d running (process %d, complete pid file) when it was submitted, that process succeeded at seq %d, and pid %d started another process for the job at seq %d"
+                         % (pid, x, ended_ok[0][0], ok_exit[ended_ok[0][0]], pid, ev[0])))
     # second run: same final results, no exception, no hang
     for i, pr in sorted(c.final["procs"].items()):
         if pr["kind"] != "sched" or pr["pid"] in c.crashed:
